@@ -96,9 +96,17 @@ def _reduce_body(body: List[ast.stmt], x: str, kind: str):
             used_calls[n] = used_calls.get(n, 0) + c
         return out
 
+    early: List[Tuple[ast.AST, ast.AST]] = []     # `if C: X.append(A); continue` steps
     for i, s in enumerate(body):
         last = i == len(body) - 1
         if isinstance(s, ast.Expr) and isinstance(s.value, ast.Constant):
+            continue
+        if isinstance(s, ast.If) and not s.orelse and len(s.body) == 2 and not last and \
+                isinstance(s.body[1], ast.Continue) and x not in _names(s.test):
+            a_ = _append_of(s.body[0], x, kind)
+            if a_ is None or x in _names(a_) or conds:
+                return None
+            early.append((sub(s.test), sub(a_)))
             continue
         if isinstance(s, ast.Pass):
             continue
@@ -150,6 +158,10 @@ def _reduce_body(body: List[ast.stmt], x: str, kind: str):
             if e is None or x in _names(e):
                 return None
             elt = sub(e)
+            if early and conds:
+                return None       # an element for every iteration, or a filter: not both
+            for c_, a_ in reversed(early):
+                elt = ast.IfExp(c_, a_, elt)
             for n, c in used_calls.items():
                 if c > 1 and any(isinstance(k, ast.Call) for k in ast.walk(mp[n])):
                     return None
